@@ -977,6 +977,66 @@ def run_metrics(ctx, impl, mev, rng, count):
         if got != py_metrics(t, p):
             ctx.violation('metrics', 'the Coq model of metrics.py differs from the textbook definitions', case=dict(true=t, pred=p),
                           kind='model_diff', expected=py_metrics(t, p), observed=got)
+    # ---- the source-regenerated terms on a sample of the same cases
+    sample = cases[:81:4] + cases[81:][:(70 if ctx.tier == 'quick' else 500)]
+    run_source_metrics(ctx, impl, sample)
+
+
+def run_source_metrics(ctx, impl, cases):
+    """The terms regenerated from classification/metrics.py (Gen/NpClsMetrics.v; theorems source_metrics_* of Props/C13.v),
+    evaluated inside Coq over exact rationals with the array semantics of Model/NpVec.v, must reproduce what the functions return
+    (and be undefined exactly where they raise ValueError)."""
+    terms = [('accuracy', 'accuracy', 's', 'src_cls_accuracy'), ('confusion', 'confusion', 'm', 'src_cls_confusion'),
+             ('f1', 'f1_scores', 'v', 'src_cls_f1'), ('precisions', 'f1_scores', 'v', 'src_cls_precisions'),
+             ('recalls', 'f1_scores', 'v', 'src_cls_recalls'), ('f1_only', 'f1_only', 'v', 'src_cls_f1_only'),
+             ('micro', 'avg_micro', 's', 'src_cls_micro'), ('macro', 'avg_macro', 's', 'src_cls_macro'),
+             ('weighted', 'avg_weighted', 's', 'src_cls_weighted')]
+    exprs = []
+    for (t, p) in cases:
+        env = '(qenv_metrics %s %s)' % (clist(t, cz), clist(p, cz))
+        parts = []
+        for (_, _, shape, term) in terms:
+            if shape == 's':
+                parts.append('[map qz3 (qsresult (qvdenote %s %s))]' % (env, term))
+            elif shape == 'v':
+                parts.append('[map qz3 (qvresult (qvdenote %s %s))]' % (env, term))
+            else:
+                parts.append('map (map qz3) (qmresult (qvdenote %s %s))' % (env, term))
+        exprs.append('[%s]' % '; '.join(parts))
+    vals = safe_coq_eval(ctx, 'c13src', ['Base.Util', 'Model.NpExpr', 'Model.NpVec', 'Gen.NpClsMetrics'], exprs,
+                         prelude='Definition qz3 (q : Q) : Z * Z := (Qnum q, Zpos (Qden q)).\n', shard=60) if exprs else []
+    n_src = 0
+    for (t, p), v in zip(cases, vals or []):
+        r = impl.call('c13', 'metrics', dict(true=t, pred=p), timeout=20)
+        if 'ok' not in r:
+            continue
+        o = r['ok']
+        n_src += 1
+        ctx.count('source_term:metrics', ('srcmet', t, p), True)
+        for (name, key, shape, term), mv in zip(terms, v):
+            got = o.get(key)
+            if got is None:
+                continue
+            if shape == 'm':
+                exp = [[Fraction(x[0], x[1]) for x in row] for row in mv] or None
+            else:
+                exp = [Fraction(x[0], x[1]) for x in mv[0]] if mv and mv[0] else None
+                if shape == 's' and exp is not None:
+                    exp = exp[0]
+            if exp is None:
+                if 'err' not in got or got['err'] != 'ValueError':
+                    ctx.violation('metrics', 'the term regenerated from metrics.py (%s) is undefined (the source raises ValueError) but the '
+                                  'function returns a value' % term, case=dict(true=t, pred=p), kind='source_term', metric=name, observed=got)
+                continue
+            val = got.get('ok')
+            if name in ('f1', 'precisions', 'recalls') and val is not None:
+                val = val[{'f1': 0, 'precisions': 1, 'recalls': 2}[name]]
+            fexp = [[float(x) for x in row] for row in exp] if shape == 'm' else ([float(x) for x in exp] if shape == 'v' else float(exp))
+            if val is None or not conv_close(fexp, val if shape != 'm' else [[float(x) for x in row] for row in val]):
+                ctx.violation('metrics', 'the term regenerated from metrics.py (%s), evaluated with the array semantics of Model/NpVec.v, '
+                              'differs from what the function returns' % term, case=dict(true=t, pred=p), kind='source_term', metric=name,
+                              expected=fexp, observed=got)
+    ctx.extra['source_terms_evaluated'] = ctx.extra.get('source_terms_evaluated', 0) + n_src
 
 
 def conv_close(a, b):
